@@ -103,8 +103,12 @@ Inductive fault :=
 
 Record scenario := {
   sc_fault : fault;
-  sc_gated : bool    (* the harness stream holds back REQ delivery until every request has been
+  sc_gated : bool;   (* the harness stream holds back REQ delivery until every request has been
                         sent and then blocks every DATA send until tear-down (large fan-out) *)
+  sc_stall : option nat;  (* with sc_hold: the receiver-side callbacks of this entry block until the
+                             same moment and then return normally (a slow diff) *)
+  sc_hold : bool     (* the fault is held back (its hook blocks / the cancellation or endpoint failure
+                        is postponed) until no goroutine of either call can move, then released *)
 }.
 
 Definition n_need (p : params) : nat :=
@@ -212,10 +216,44 @@ Definition env_fault_label (sc : scenario) : option label :=
    sending direction (LEnvCloseSend: the peer sees EOF after draining).  A cancellation /
    endpoint failure "at operation k" happens inside a stream operation: here it may follow
    any step that changed one of the two stream directions (and, at_start, precede everything). *)
+(* the move that the stalled callback is part of *)
+Definition is_stalled (sc : scenario) (p : params) (st : state) (l : label) : bool :=
+  match sc_stall sc, l with
+  | Some i, LDiff =>
+      match dl_pc st with
+      | DL_Handle i' => Nat.eqb i i' && is_meta (kind_of p i)
+      | _ => false
+      end
+  | Some i, LWriter j =>
+      match nth_error (wrs st) j with
+      | Some w => match wr_pc w with WR_Start => Nat.eqb (wr_id w) i | _ => false end
+      | None => false
+      end
+  | _, _ => false
+  end.
+
+Definition is_fault_label (l : label) : bool :=
+  match l with
+  | LSWalkErr | LWorkerOpenErr _ | LWorkerReadErr _ | LDiffCbErr | LWriterCbErr _ => true
+  | _ => false
+  end.
+
 Definition succs (sc : scenario) (p : params) (st : state) : list (label * state) :=
-  let ss := flat_map (fun l => if allowed0 sc p st l
-                               then match step p st l with Some s => [(l, s)] | None => [] end
-                               else []) (all_labels st) in
+  let ss0 := flat_map (fun l => if allowed0 sc p st l
+                                then match step p st l with Some s => [(l, s)] | None => [] end
+                                else []) (all_labels st) in
+  (* the postponed cancellation / endpoint failure, while it can still happen *)
+  let env_now := match env_fault_label sc with
+                 | Some el => match step p st el with Some s => [(el, s)] | None => [] end
+                 | None => []
+                 end in
+  let env_pending := match env_now with [] => false | _ => true end in
+  (* a stall lasts until the held fault is released: with a postponed cancellation / failure,
+     until that has happened *)
+  let stall_on := match env_fault_label sc with Some _ => env_pending | None => true end in
+  let deferred ls := is_fault_label (fst ls) || (stall_on && is_stalled sc p st (fst ls)) in
+  let heldf := if sc_hold sc then filter deferred ss0 else [] in
+  let ss := if sc_hold sc then filter (fun ls => negb (deferred ls)) ss0 else ss0 in
   match find (fun ls => safe_local p st (fst ls)) ss with
   | Some ls => [ls]
   | None =>
@@ -223,15 +261,20 @@ Definition succs (sc : scenario) (p : params) (st : state) : list (label * state
     let envs := match env_fault_label sc with
                 | None => []
                 | Some el =>
-                    flat_map (fun ls =>
+                    if sc_hold sc
+                    then (if quiet then env_now else [])
+                    else flat_map (fun ls =>
                       let s' := snd ls in
                       if (length (buf_sr s') =? length (buf_sr st)) && (length (buf_rs s') =? length (buf_rs st))
                       then []
                       else match step p s' el with Some s'' => [(el, s'')] | None => [] end) ss
                 end in
-    ss ++ envs ++ (if returned_err st || quiet
-                   then match step p st LEnvTearDown with Some s => [(LEnvTearDown, s)] | None => [] end
-                   else [])
+    let faults := if quiet && negb (sc_hold sc && env_pending) then heldf else [] in
+    let stuck := quiet && match faults, envs with [], [] => true | _, _ => false end in
+    ss ++ envs ++ faults ++
+    (if returned_err st || stuck
+     then match step p st LEnvTearDown with Some s => [(LEnvTearDown, s)] | None => [] end
+     else [])
   end.
 
 Definition start_state (sc : scenario) (p : params) : state :=
@@ -319,7 +362,8 @@ Fixpoint sched_last (fuel : nat) (sc : scenario) (p : params) (st : state) : sta
     end
   end.
 
-Definition no_fault : scenario := {| sc_fault := FNone; sc_gated := false |}.
+Definition no_fault : scenario := {| sc_fault := FNone; sc_gated := false; sc_stall := None; sc_hold := false |}.
+Definition mk_scenario (f : fault) (gated : bool) : scenario := {| sc_fault := f; sc_gated := gated; sc_stall := None; sc_hold := false |}.
 
 (* ---------- what a sequential receiver computes: the outcome of a complete fault-free run ---------- *)
 Fixpoint need_ids_from (i : nat) (l : list entry) : list nat :=
